@@ -14,6 +14,7 @@ package migration
 //@ func (*SchemaVersion).Set
 //@   props C18
 //@   arith bv
+//@   logged
 //@   requires sv != nil && index < 64
 //@   modifies *sv
 //@   ensures only_that_bit: forall i uint8 :: i < 64 ==> (bitOf(*sv, i) <==> (i == index || old(bitOf(*sv, i))))
@@ -86,11 +87,12 @@ package migration
 //@   arith bv
 //@   requires mr != nil && migrationIndex < 64 && int(migrationIndex) < len(mr.entries)
 //@   modifies *
-//@   assigns migState, migErr, calls_Migrate, calls_Before, calls_WriteIntermediateState, calls_WriteSchemaMetadata, calls_BatchWrite, arg_Before_intermediateState, arg_Migrate_ctx, arg_Migrate_database, arg_Migrate_network, arg_Migrate_logger, arg_WriteIntermediateState_w, arg_WriteIntermediateState_migrationIndex, arg_WriteIntermediateState_state, arg_WriteSchemaMetadata_w, arg_WriteSchemaMetadata_sm
+//@   assigns migState, migErr, calls_Migrate, calls_Before, calls_WriteIntermediateState, calls_WriteSchemaMetadata, calls_BatchWrite, arg_Before_intermediateState, arg_Migrate_ctx, arg_Migrate_database, arg_Migrate_network, arg_Migrate_logger, arg_WriteIntermediateState_w, arg_WriteIntermediateState_migrationIndex, arg_WriteIntermediateState_state, arg_WriteSchemaMetadata_txn, arg_WriteSchemaMetadata_sm, calls_Set, arg_Set_index
 //@   ensures once: calls_Migrate == old(calls_Migrate) || calls_Migrate == old(calls_Migrate) + 1
 //@   ensures applied_only_if_complete: calls_WriteSchemaMetadata != old(calls_WriteSchemaMetadata) ==> calls_Migrate == old(calls_Migrate) + 1 && migErr == nil && len(migState) == 0 && migState == nil
 //@   ensures applied_bit: calls_WriteSchemaMetadata != old(calls_WriteSchemaMetadata) ==> bitOf(arg_WriteSchemaMetadata_sm.CurrentVersion, migrationIndex)
 //@   ensures state_saved: calls_Migrate == old(calls_Migrate) + 1 && migState != nil && (migErr == nil || result == nil) ==> calls_WriteIntermediateState == old(calls_WriteIntermediateState) + 1 && arg_WriteIntermediateState_state == migState && calls_WriteSchemaMetadata == old(calls_WriteSchemaMetadata)
+//@   ensures bit_set_only_when_recording: calls_Set != old(calls_Set) ==> calls_WriteSchemaMetadata != old(calls_WriteSchemaMetadata)
 //@   ensures nil_means_done_or_saved: result == nil && calls_WriteSchemaMetadata == old(calls_WriteSchemaMetadata) ==> calls_WriteIntermediateState == old(calls_WriteIntermediateState) + 1
 
 // ---- iteration over the set bits, and the opt-out check built on it ------------------------------
@@ -115,3 +117,18 @@ package migration
 //@   loop yield1: invariant one_flag_each: len(flagList) == yieldindex
 //@   ensures refuses_known_opt_out: (exists i uint8 :: i < 64 && int(i) < len(optionalMigrationFlags) && bitOf(lastTargetVersion, i) && !bitOf(target, i)) ==> result != nil
 //@   ensures accepts_otherwise: result != nil ==> (exists i uint8 :: i < 64 && int(i) < len(optionalMigrationFlags) && bitOf(lastTargetVersion, i) && !bitOf(target, i))
+
+// ---- the runner's loop over the pending migrations (the range-over-func body Run$1) ---------------
+// The in-memory schema version moves only together with the persisted one: the body sets no bit
+// itself, and a migration that only saved resumable state (runMigration returned nil without
+// writing the metadata) leaves its bit clear so that the next start resumes it.
+//@ extern func context.Context.Err
+//@ extern func fmt.Sprintf
+//@ func (*MigrationRunner).Run$1
+//@   props C18
+//@   arith bv
+//@   nosafe
+//@   requires *mr != nil && arg0 < 64 && int(arg0) < len((*mr).entries)
+//@   modifies *
+//@   assigns migState, migErr, calls_Migrate, calls_Before, calls_WriteIntermediateState, calls_WriteSchemaMetadata, calls_BatchWrite, arg_Before_intermediateState, arg_Migrate_ctx, arg_Migrate_database, arg_Migrate_network, arg_Migrate_logger, arg_WriteIntermediateState_w, arg_WriteIntermediateState_migrationIndex, arg_WriteIntermediateState_state, arg_WriteSchemaMetadata_txn, arg_WriteSchemaMetadata_sm, calls_Set, arg_Set_index
+//@   ensures applied_only_when_recorded: calls_Set != old(calls_Set) ==> calls_WriteSchemaMetadata != old(calls_WriteSchemaMetadata)
